@@ -56,21 +56,33 @@ func VerifC20Packet(n, k1, k2 int) {
 	p.Options[code] = verifBytes("val", n)
 	e0 := p.ToBytes()
 	if k2 >= 0 {
-		verifPacketReader(p, k1)
+		d1 := verifPacketReader(p, k1)
 		verifAssert(verifSame(p.ToBytes(), e0), "reader-leaves-encoding-unchanged")
 		verifPacketReader(p, k2)
 		verifAssert(verifSame(p.ToBytes(), e0), "second-reader-leaves-encoding-unchanged")
-		verifPacketReader(p, k1)
+		d2 := verifPacketReader(p, k1)
 		verifAssert(verifSame(p.ToBytes(), e0), "repeated-reader-leaves-encoding-unchanged")
+		verifAssert(verifSame(d1, d2), "repeated-calls-return-equal-results")
 	} else {
-		for k := range verifPacketReaderNames {
-			verifPacketReader(p, k)
+		// every reader once (results folded into a digest), then every reader again in the
+		// opposite order: each result must equal the first one whatever was called in between
+		np, no := len(verifPacketReaderNames), len(verifOptionsReaderNames)
+		dp, do := make([][]byte, np), make([][]byte, no)
+		for k := 0; k < np; k++ {
+			dp[k] = verifPacketReader(p, k)
 			verifAssert(verifSame(p.ToBytes(), e0), "reader-leaves-encoding-unchanged")
 		}
-		for k := range verifOptionsReaderNames {
-			verifOptionsReader(p.Options, k)
+		for k := 0; k < no; k++ {
+			do[k] = verifOptionsReader(p.Options, k)
 			verifAssert(verifSame(p.ToBytes(), e0), "options-reader-leaves-encoding-unchanged")
 		}
+		for k := no - 1; k >= 0; k-- {
+			verifAssert(verifSame(verifOptionsReader(p.Options, k), do[k]), "repeated-calls-return-equal-results")
+		}
+		for k := np - 1; k >= 0; k-- {
+			verifAssert(verifSame(verifPacketReader(p, k), dp[k]), "repeated-calls-return-equal-results")
+		}
+		verifAssert(verifSame(p.ToBytes(), e0), "reader-leaves-encoding-unchanged")
 	}
 	verifReach("end")
 }
